@@ -88,6 +88,10 @@ func VerifC10BuiltinCalls() {
 	m := c10Builtins()
 	fn := c10Callable(m)
 	args := c10Args(verifBound(2, 3))
+	// divmod/pow of two symbolic integers: non-linear; VerifC10IntArith / VerifC10IntPow (and C07) cover those operators
+	if k := verifChoiceOf("callable"); (k == 8 || k == 21) && len(args) >= 2 && py.VerifC10IsInt(args[0]) && py.VerifC10IsInt(args[1]) {
+		return
+	}
 	_, _ = py.Call(fn, args, nil)
 	verifReach("called")
 }
